@@ -124,10 +124,25 @@ def _quantifier(e):
     """('any'|'all', generator) for `any(E for T in I if C)` / `all(..)` with one plain generator, else None"""
     if isinstance(e, ast.Call) and isinstance(e.func, ast.Name) and e.func.id in ('any', 'all') and len(e.args) == 1 and not e.keywords \
             and isinstance(e.args[0], (ast.GeneratorExp, ast.ListComp)) and len(e.args[0].generators) == 1 and not e.args[0].generators[0].is_async \
-            and not any(isinstance(x, (ast.ListComp, ast.SetComp, ast.DictComp, ast.GeneratorExp, ast.Lambda, ast.Await, ast.NamedExpr))
-                        for x in ast.walk(e.args[0]) if x is not e.args[0]):
-        return e.func.id, e.args[0]
+            and not any(isinstance(x, (ast.Lambda, ast.Await, ast.NamedExpr)) for x in ast.walk(e.args[0])):
+        ge = e.args[0]
+        # a nested comprehension is fine only inside a nested any()/all() that is the element itself (`all(any(..) for ..)`)
+        elt = ge.elt.operand if isinstance(ge.elt, ast.UnaryOp) and isinstance(ge.elt.op, ast.Not) else ge.elt
+        allowed = set()
+        if _is_quant_call(elt):
+            if _quantifier(elt) is None:
+                return None
+            allowed = {id(y) for y in ast.walk(elt)}
+        for x in ast.walk(ge):
+            if x is not ge and id(x) not in allowed and isinstance(x, (ast.ListComp, ast.SetComp, ast.DictComp, ast.GeneratorExp)):
+                return None
+        return e.func.id, ge
     return None
+
+
+def _is_quant_call(e):
+    return isinstance(e, ast.Call) and isinstance(e.func, ast.Name) and e.func.id in ('any', 'all') and len(e.args) == 1 and not e.keywords \
+        and isinstance(e.args[0], (ast.GeneratorExp, ast.ListComp))
 
 
 def _block(stmts, fn_counts):
@@ -190,6 +205,21 @@ def _block(stmts, fn_counts):
         if q:
             kind, ge = q
             g = ge.generators[0]
+            if isinstance(s, ast.Return) and core is s.value:
+                # `return any(E for ..)` is `for ..: if E: return True` followed by `return False` (all: `if not E: return False` .. `return True`)
+                hit_r = ast.Return(value=ast.Constant(kind == 'any'))
+                inner_r = ast.If(test=ge.elt if kind == 'any' else ast.UnaryOp(op=ast.Not(), operand=ge.elt), body=[hit_r], orelse=[])
+                for c in reversed(g.ifs):
+                    inner_r = ast.If(test=c, body=[inner_r], orelse=[])
+                loop_r = ast.For(target=g.target, iter=g.iter, body=[inner_r], orelse=[], type_comment=None)
+                last_r = ast.Return(value=ast.Constant(kind != 'any'))
+                for top in (loop_r, last_r):
+                    for x in ast.walk(top):
+                        if not hasattr(x, 'lineno'):
+                            ast.copy_location(x, core)
+                    ast.fix_missing_locations(top)
+                stmts[i:i + 1] = [loop_r, last_r]
+                continue
             # `x = any(..)`: x itself is the flag
             direct = isinstance(s, ast.Assign)
             nm = s.targets[0].id if direct else f'{kind}__{core.lineno}'
@@ -237,6 +267,17 @@ def _block(stmts, fn_counts):
                 s = new
         if isinstance(s, (ast.If, ast.While)):
             s.test = _nnf(s.test)      # 9. negation normal form of tests
+        if isinstance(s, ast.While) and not s.orelse and isinstance(s.test, ast.BoolOp) and isinstance(s.test.op, ast.And) and len(s.test.values) >= 2 \
+                and not any(isinstance(x, (ast.Await, ast.NamedExpr)) for x in ast.walk(s.test)):
+            # 11. `while a and b: BODY` is `while a: if not b: break; BODY` (a counting search loop with its exit test in the body)
+            vals = s.test.values
+            guards = []
+            for v in vals[1:]:
+                g = ast.If(test=_neg(v), body=[ast.copy_location(ast.Break(), v)], orelse=[])
+                guards.append(ast.copy_location(g, v))
+            s.test = vals[0]
+            s.body = guards + s.body
+            ast.fix_missing_locations(s)
         # recurse into compound statements
         for fld in ('body', 'orelse', 'finalbody'):
             b = getattr(s, fld, None)
